@@ -103,6 +103,12 @@ class ShardCtx:
 def _worker(args):
     modname, pid, tier, seed, spec, known = args
     try:
+        import resource
+        # a mutated tree can ask for astronomically large integers; fail such a case instead of the machine
+        resource.setrlimit(resource.RLIMIT_AS, (6 << 30, 6 << 30))
+    except Exception:  # noqa
+        pass
+    try:
         mod = importlib.import_module(modname)
         ctx = ShardCtx(pid, tier, seed, spec, known)
         mod.run_shard(spec, ctx)
